@@ -7,6 +7,7 @@
 #include <signal.h>
 #include <stdarg.h>
 #include <stdio.h>
+#include <stdio_ext.h>
 #include <stdlib.h>
 #include <string.h>
 #include <unistd.h>
@@ -77,8 +78,8 @@ FILE* fopen(const char* p, const char* mode) { static auto r = real<FILE* (*)(co
 int ftruncate(int fd, off_t len) { static auto r = real<int (*)(int, off_t)>("ftruncate"); if (!g_ip_active) return r(fd, len); std::string p = fdpath(fd); if (pre("ftruncate", p)) return -1; int rv = r(fd, len); post("ftruncate", p, -1); return rv; }
 int ftruncate64(int fd, off64_t len) { static auto r = real<int (*)(int, off64_t)>("ftruncate64"); if (!g_ip_active) return r(fd, len); std::string p = fdpath(fd); if (pre("ftruncate", p)) return -1; int rv = r(fd, len); post("ftruncate", p, -1); return rv; }
 int truncate(const char* p, off_t len) { static auto r = real<int (*)(const char*, off_t)>("truncate"); if (!g_ip_active) return r(p, len); if (pre("truncate", p)) return -1; int rv = r(p, len); post("truncate", p, -1); return rv; }
-int fflush(FILE* f) { static auto r = real<int (*)(FILE*)>("fflush"); if (!f || !g_ip_active || G.mode == OFF) return r(f); int fd = fileno(f); std::string p = fdpath(fd); if (pre("fflush", p)) { return EOF; } int rv = r(f); post("fflush", p, fd); return rv; }
-int fclose(FILE* f) { static auto r = real<int (*)(FILE*)>("fclose"); if (!f || !g_ip_active || G.mode == OFF) return r(f); int fd = fileno(f); std::string p = fdpath(fd); if (pre("fclose", p)) { r(f); return EOF; } int rv = r(f); post("fclose", p, -1); return rv; }
+int fflush(FILE* f) { static auto r = real<int (*)(FILE*)>("fflush"); if (!f || !g_ip_active || G.mode == OFF) return r(f); int fd = fileno(f); std::string p = fdpath(fd); if (pre("fflush", p)) { __fpurge(f); return EOF; } /* a failed flush really loses the data, as a full disk does */ int rv = r(f); post("fflush", p, fd); return rv; }
+int fclose(FILE* f) { static auto r = real<int (*)(FILE*)>("fclose"); if (!f || !g_ip_active || G.mode == OFF) return r(f); int fd = fileno(f); std::string p = fdpath(fd); if (pre("fclose", p)) { __fpurge(f); r(f); return EOF; } int rv = r(f); post("fclose", p, -1); return rv; }
 size_t fwrite(const void* b, size_t sz, size_t n, FILE* f) { static auto r = real<size_t (*)(const void*, size_t, size_t, FILE*)>("fwrite"); if (!g_ip_active || G.mode == OFF || !G.with_fwrite || !f) return r(b, sz, n, f); std::string p = fdpath(fileno(f)); if (pre("fwrite", p)) return 0; return r(b, sz, n, f); }
 int fsync(int fd) { static auto r = real<int (*)(int)>("fsync"); if (!g_ip_active) return r(fd); std::string p = fdpath(fd); if (pre("fsync", p)) return -1; int rv = r(fd); post("fsync", p, -1); return rv; }
 int fdatasync(int fd) { static auto r = real<int (*)(int)>("fdatasync"); if (!g_ip_active) return r(fd); std::string p = fdpath(fd); if (pre("fsync", p)) return -1; int rv = r(fd); post("fsync", p, -1); return rv; }
